@@ -429,7 +429,8 @@ namespace nrf51_details {
         if ( !static_cast< bool >( receive_buffer_.buffer[ 0 ] & rx_add_mask ) == scanner_addres_is_random )
             return false;
 
-        const link_layer::device_address scanner( &receive_buffer_.buffer[ pdu_header_size + pdu_gap ], scanner_addres_is_random );
+        // the address type of the scanner is stored in TxAdd of the scan request
+        const link_layer::device_address scanner( &receive_buffer_.buffer[ pdu_header_size + pdu_gap ], receive_buffer_.buffer[ 0 ] & tx_add_mask );
 
         return callbacks_.is_scan_request_in_filter_callback( scanner );
     }
